@@ -4,7 +4,8 @@ seeded/<id>/meta.json and seeded/RESULTS.md.   usage: seed_all.py [id ...]"""
 import glob, json, os, subprocess, sys
 EXTRA = {'C01': ['C02', 'C08', 'C14'], 'C02': ['C01', 'C04', 'C06'], 'C03': ['C06', 'C15'], 'C04': ['C06'], 'C06': ['C04', 'C07'], 'C07': ['C06'], 'C14': ['C01'], 'C16': [], 'C18': ['C05', 'C06'], 'C19': ['C07', 'C06'], 'C20': ['C04'], 'C05': ['C07', 'C06', 'C18'], 'C08': ['C01', 'C16', 'C20'], 'C10': ['C04', 'C06'], 'C11': ['C03', 'C15', 'C18'], 'C12': ['C14'], 'C15': ['C03', 'C11'], 'C17': ['C03', 'C06', 'C18']}
 INPLACE = '--inplace' in sys.argv
-sys.argv = [a for a in sys.argv if a != '--inplace']
+OWN = '--own' in sys.argv   # only the check of the property the change was aimed at (its support units included); resets the recorded verdicts
+sys.argv = [a for a in sys.argv if a not in ('--inplace', '--own')]
 ids = sys.argv[1:] or sorted(os.path.basename(d) for d in glob.glob('/verif/seeded/C*-*'))
 claimed = {c['property_id'] for c in json.load(open('/verif/MANIFEST.json'))['checks']}
 rows = []
@@ -14,12 +15,14 @@ for i in ids:
     if meta.get('obsolete'):
         print(i, 'obsolete: skipped'); continue
     prop = meta['property']
-    props = [p for p in [prop] + EXTRA.get(prop, []) if p in claimed]
+    props = [p for p in [prop] + ([] if OWN else EXTRA.get(prop, [])) if p in claimed]
+    if OWN:
+        meta['checks'] = {}
     # plus every property decided by a unit that extracts code from a file the change touches
     import re as _re
     changed = set(_re.findall(r'^\+\+\+ b/(\S+)', open(f'{d}/patch.diff').read(), _re.M))
     units = json.load(open('/verif/units/units.json'))
-    for un, ud in units.items():
+    for un, ud in ({} if OWN else units).items():
         txt = open(os.path.join('/verif', ud['template'])).read()
         files = set(_re.findall(r'/\*@ extract (\S+)', txt)) | set(_re.findall(r'^[ \t]*//@item (\S+)', txt, _re.M))
         if files & changed:
